@@ -40,3 +40,38 @@ Definition file_bytes (g : bytes) (t attr state : Z) (body : bytes) : bytes :=
 (* a file with arbitrary checksum bytes (types whose content fiano treats as opaque) *)
 Definition raw_file_bytes (g : bytes) (ckh ckf t attr state : Z) (body : bytes) : bytes :=
   g ++ [ckh; ckf; t; attr] ++ le_enc 3 (24 + zlen body) ++ [state] ++ body.
+
+(* ---------- volumes ---------- *)
+
+(* files in a volume: each followed by erased bytes (0xFF) up to the next 8-byte boundary *)
+Fixpoint flay (files : list bytes) : bytes :=
+  match files with
+  | [] => []
+  | f :: r => f ++ zrepeat 255 (align8 (zlen f) - zlen f) ++ flay r
+  end.
+
+(* the 72-byte header of a volume with one block-map entry and no extended header *)
+Definition fv_header (zero g : bytes) (len attrs cksum reserved rev count bsize : Z) : bytes :=
+  zero ++ g ++ le_enc 8 len ++ [95; 70; 86; 72] ++ le_enc 4 attrs ++ le_enc 2 72 ++ le_enc 2 cksum ++
+  le_enc 2 0 ++ [reserved; rev] ++ le_enc 4 count ++ le_enc 4 bsize ++ zrepeat 0 8.
+
+(* the 16-bit checksum that makes the header words sum to zero *)
+Definition fv_cksum (zero g : bytes) (len attrs reserved rev count bsize : Z) : Z :=
+  (0 - sum16 (fv_header zero g len attrs 0 reserved rev count bsize)) mod 65536.
+
+Definition vol_bytes (zero g : bytes) (attrs reserved rev count bsize : Z) (files : list bytes) (free : Z)
+  : bytes :=
+  let len := 72 + zlen (flay files) + free in
+  fv_header zero g len attrs (fv_cksum zero g len attrs reserved rev count bsize) reserved rev count bsize
+  ++ flay files ++ zrepeat 255 free.
+
+(* a file at volume offset [off] meets the data alignment its attribute bits ask for *)
+Definition file_aligned (off : Z) (fb : bytes) : bool :=
+  let attr := rd 19 1 fb in
+  (attr_align attr =? 1) || ((off + file_hlen attr) mod (attr_align attr) =? 0).
+
+Fixpoint files_aligned (off : Z) (files : list bytes) : bool :=
+  match files with
+  | [] => true
+  | f :: r => file_aligned off f && files_aligned (off + align8 (zlen f)) r
+  end.
